@@ -19,6 +19,7 @@ func checkC14(c *Ctx) {
 	c14BufferSame(c, "buffer.same")
 	c14RangeScanner(c)
 	c14RangeTracks(c)
+	c14NodeRangeStart(c)
 }
 
 // range.tracks: a parser loop that accumulates items in a slice and tracks the source range of the
@@ -506,4 +507,96 @@ func c14EOFRule(c *Ctx) {
 	c14EOF(c)
 	c.NotCovered("tiling, ordering and gap content of the token stream: produced by the Ragel automaton (scan_tokens.go, ≈ 5 000 generated lines of goto), out of reach of shape rules")
 	c.NotCovered("range fidelity of parser nodes (RangeBetween arithmetic in the parser) and RangeScanner: value-level")
+}
+
+// range.start: the recorded range of a syntax node is never derived from StartRange().
+func c14NodeRangeStart(c *Ctx) {
+	c.Rule("range.start: in hclsyntax no value obtained from an expression's StartRange() flows (directly, through hcl.RangeBetween, locals or phis) into an hcl.Range field of a syntax node: StartRange() is the 'interesting' start used to point diagnostics (the bracket of an IndexExpr, the marker of a SplatExpr, the first part of a template, the left operand's own StartRange for operators), not the first byte of the construct, so a node range built from it starts inside the construct")
+	pkg := c.P.Pkg("hclsyntax")
+	var nodeI *types.Interface
+	if pkg != nil {
+		if tn, ok := pkg.Types.Scope().Lookup("Node").(*types.TypeName); ok {
+			nodeI, _ = tn.Type().Underlying().(*types.Interface)
+		}
+	}
+	if nodeI == nil {
+		c.CheckerFail("range.start", "anchor hclsyntax.Node does not resolve")
+		return
+	}
+	n := 0
+	for _, fn := range c.P.pkgFuncs("hclsyntax") {
+		for _, b := range fn.Blocks {
+			for _, ins := range b.Instrs {
+				call, ok := ins.(*ssa.Call)
+				if !ok {
+					continue
+				}
+				name := ""
+				if call.Call.IsInvoke() {
+					name = call.Call.Method.Name()
+				} else if cal := call.Call.StaticCallee(); cal != nil && cal.Signature.Recv() != nil {
+					name = cal.Name()
+				}
+				if name != "StartRange" || !isNamed(call.Type(), modPath, "Range") {
+					continue
+				}
+				n++
+				c.Sites++
+				c.Fn(FuncName(fn))
+				// forward flow
+				var hit *ssa.Store
+				seen := map[ssa.Value]bool{}
+				var fwd func(v ssa.Value)
+				fwd = func(v ssa.Value) {
+					if seen[v] || hit != nil || v.Referrers() == nil {
+						return
+					}
+					seen[v] = true
+					for _, r := range *v.Referrers() {
+						switch x := r.(type) {
+						case *ssa.Phi:
+							fwd(x)
+						case *ssa.ChangeType:
+							fwd(x)
+						case *ssa.Call:
+							if cal := x.Call.StaticCallee(); cal != nil && cal.Name() == "RangeBetween" && isNamed(x.Type(), modPath, "Range") {
+								fwd(x)
+							}
+						case *ssa.Store:
+							if x.Val != v {
+								continue
+							}
+							switch a := x.Addr.(type) {
+							case *ssa.Alloc:
+								// a local: its loads
+								for _, r2 := range *a.Referrers() {
+									if u, ok := r2.(*ssa.UnOp); ok && u.Op == token.MUL {
+										fwd(u)
+									}
+								}
+							case *ssa.FieldAddr:
+								pt := a.X.Type()
+								if types.Implements(pt, nodeI) || types.Implements(types.NewPointer(pt), nodeI) {
+									hit = x
+								} else if p, ok := pt.Underlying().(*types.Pointer); ok && types.Implements(p.Elem(), nodeI) {
+									hit = x
+								}
+							}
+						}
+					}
+				}
+				fwd(call)
+				key := fmt.Sprintf("%s:StartRange[%s]", FuncName(fn), pathName(call.Call.Value))
+				if call.Call.IsInvoke() == false && len(call.Call.Args) > 0 {
+					key = fmt.Sprintf("%s:StartRange[%s]", FuncName(fn), pathName(call.Call.Args[0]))
+				}
+				if hit == nil {
+					c.OK("range.start", key, call.Pos(), "used for a diagnostic or returned")
+				} else {
+					c.Fail("range.start", key, hit.Pos(), "the range of a syntax node is built from StartRange(), which for index, splat, template and operator expressions lies inside the construct: Range().SliceBytes(src) is then not the construct's text")
+				}
+			}
+		}
+	}
+	c.Floor("range.start StartRange uses", n, 8, "the delegating StartRange methods and the diagnostics of FunctionCallExpr.Value")
 }
